@@ -46,6 +46,15 @@ def build(race):
     cmd = [GO, "test", "-c", "-tags", "verif", "-o", out]
     if race:
         cmd.insert(2, "-race")
+    alt = os.environ.get("VERIF_REPO")
+    if alt:
+        # development aid (background sweeps on a snapshot of the repository while /repo is being
+        # mutated): registered commands never set this and always build against /repo itself
+        mod = open(os.path.join(HARNESS, "go.mod")).read().replace("=> /repo", "=> " + alt)
+        altmod = os.path.join(BUILD, "go.alt.mod")
+        open(altmod, "w").write(mod)
+        shutil.copyfile(os.path.join(HARNESS, "go.sum"), os.path.join(BUILD, "go.alt.sum"))
+        cmd.insert(2, "-modfile=" + altmod)
     cmd.append(".")
     p = subprocess.run(cmd, cwd=HARNESS, env=GOENV, stdout=subprocess.PIPE, stderr=subprocess.STDOUT, text=True)
     if p.returncode != 0:
